@@ -100,3 +100,38 @@ def compare(groups, cer, soll, got, check_pool_status=False):
         if o["status"] != status:
             return ("status", {"id": nid, "status": status}, {"id": nid, "status": o["status"]})
     return None
+
+
+def explore_validation(groups, cer, soll, order_bound, entry="deep"):
+    """E3: validation of `groups` with SUSPENDING requirement / format / hint / package evaluators under all completion orders
+    (<= order_bound deviations) on the virtual event loop.  returns (vloop, factory_for, observe, base_json, exploration)"""
+    import json
+
+    from checks import c12
+    from mc import vloop
+
+    init()
+    c12.worker_init()
+    rc = dict(zip(("1", "2", "3"), PERMS[cer]))
+
+    def factory_for(zero):
+        def factory(sched):
+            e = c12._env(sched, rc=rc, fc=dict(FC), hints=dict(HINTS), packages=dict(PACKAGES), yields={"*": 0} if zero else None)
+
+            async def go():
+                if entry == "deep":
+                    return V.observe(await V.validate_deep_anwendungshandbuch(V.build_ahb(groups), soll))
+                return V.observe(await V.validate_segment_level(V.build_ahb(groups).lines[0], soll))
+
+            return c12._with_env(e, go)
+
+        return factory
+
+    def observe(ex):
+        if ex.exception is not None:
+            return json.dumps(["exc", type(ex.exception).__name__])
+        return json.dumps(["ok", ex.result], ensure_ascii=False, default=repr)
+
+    base = observe(vloop.run_schedule(factory_for(True), []))
+    exp = vloop.explore(factory_for(False), observe, order_bound=order_bound, early_bound=0) if order_bound != "none" else None
+    return vloop, factory_for, observe, base, exp
